@@ -984,26 +984,29 @@ def remap_by_types(
             t_true = self.lookup_type(t_node.body)
             t_false = self.lookup_type(t_node.orelse)
 
-            def same_dictionary(a, b) -> bool:
-                "Two dictionary literals with the same fields (each literal gets a class of its own)"
-                if not (
+            def merged(a, b) -> Any:
+                "The type of something that is an `a` or a `b` (None if they do not go together)"
+                if a == b:
+                    return a
+                if a in [int, float, Any] and b in [int, float, Any]:
+                    return float
+                if (
                     getattr(a, "__name__", None) == "dict_dataclass"
                     and getattr(b, "__name__", None) == "dict_dataclass"
                     and is_dataclass(a)
                     and is_dataclass(b)
                 ):
-                    return False
-                h_a, h_b = get_type_hints(a), get_type_hints(b)
-                return h_a.keys() == h_b.keys() and all(
-                    h_a[k] == h_b[k] or same_dictionary(h_a[k], h_b[k]) for k in h_a
-                )
+                    # Dictionary literals (each gets a class of its own): the same fields, of
+                    # types that go together.
+                    h_a, h_b = get_type_hints(a), get_type_hints(b)
+                    fields = [(k, merged(h_a[k], h_b.get(k))) for k in h_a]
+                    if h_a.keys() != h_b.keys() or any(t is None for _, t in fields):
+                        return None
+                    return make_dataclass("dict_dataclass", fields)
+                return None
 
-            final_type = Any
-            if t_true == t_false or same_dictionary(t_true, t_false):
-                final_type = t_true
-            elif t_true in [int, float, Any] and t_false in [int, float, Any]:
-                final_type = float
-            else:
+            final_type = merged(t_true, t_false)
+            if final_type is None:
                 raise ValueError(
                     f"IfExp branches have different types: {t_true} and {t_false}"
                     " - must be compatible"
